@@ -1,5 +1,5 @@
 CONSTANTS
-  Names = {"plain", "py_keyword", "renamed", "kw_all"}
+  Names = {"kotlin_override", "plain", "py_keyword", "renamed", "kw_all"}
   Triggers = {"unit", "u8", "u32", "U53", "datetime", "generic_param", "mapped_bytes", "mapped_date", "user_enum"}
   Wrappers = {"vec", "option", "mapv", "array", "garg", "box"}
   MaxDepth = 2
